@@ -361,9 +361,11 @@ func runShard(idx, n int, b bounds, budget *engine.Budget) *shardResult {
 					for _, l := range limits {
 						for _, nm := range nameds {
 							for _, s := range []bool{true, false} {
-								pc := podCase{Fraction: f, Memory: m, Devices: d, Limit: l, Named: nm, Sharing: s}
-								w.one(pc, func() string { return "representative-values " + ctxClass(pc) }, orderKey("", 1000+ci))
-								ci++
+								for _, preset := range []bool{false, true} {
+									pc := podCase{Fraction: f, Memory: m, Devices: d, Limit: l, Named: nm, Sharing: s, Preset: preset}
+									w.one(pc, func() string { return "representative-values " + ctxClass(pc) }, orderKey("", 1000+ci))
+									ci++
+								}
 							}
 						}
 					}
